@@ -1813,6 +1813,9 @@ var zzC07ActPrio = map[string]int{
 // It returns nil when nothing uncovered is reachable.  h.mu must be held.
 func (h *zzC07Harness) pick(v int) (g *zzC07Group, covering bool) {
 	best, bestP := []*zzC07Group{}, 1 << 30
+	// With a step budget (quick tier) the order of preference is dropped for
+	// one choice in three, so that the sample also reaches deep states.
+	flat := h.in.cfg.Budget > 0 && h.rng.Intn(3) == 0
 	for _, c := range h.in.out[v] {
 		if c.covered {
 			continue
@@ -1821,6 +1824,10 @@ func (h *zzC07Harness) pick(v int) (g *zzC07Group, covering bool) {
 		p := 10 * zzC07ActPrio[c.Act]
 		if c.self {
 			p = -1
+		}
+
+		if flat {
+			p = 0
 		}
 
 		if p < bestP {
